@@ -331,6 +331,7 @@ pub fn run(tier: Tier, _replay: Option<Value>) -> ! {
     rep.set("alphabet_bound", format!("length <= {max_len} over {} symbols", SIGMA1.len()));
     // ---- corpus through the parser entry points and the line-editor entry points
     rep.set("corpus_cases", corpus_all.len() as u64);
+    let mut retries_left = 40u32;
     for (mode, what, chunk) in [("parse", "corpus-parse", 100usize), ("editor", "editor", 25usize)] {
         let lines: Vec<&CorpusCase> = corpus_all.iter().filter(|c| if mode == "parse" { c.text.len() <= 5000 } else { c.text.len() <= 200 && !c.tags.iter().any(|t| t == "reinterpret" || t == "sizes") }).collect();
         // the editor pass takes every cursor position (a completion each): at the quick tier it covers the
@@ -358,8 +359,11 @@ pub fn run(tier: Tier, _replay: Option<Value>) -> ! {
                             Outcome::Ok(b) => absorb(&mut rep, &b, what, &c.tags),
                             bad => {
                                 let mut bad = bad;
-                                if matches!(bad, Outcome::Timeout) {
-                                    // slow is not the same as hanging: once more with four times the cap
+                                let is_huge_range = input_tags(&c.text, &[]).iter().any(|t| t == "huge-range");
+                                if matches!(bad, Outcome::Timeout) && !is_huge_range && retries_left > 0 {
+                                    retries_left -= 1;
+                                    // slow is not the same as hanging: once more with four times the cap (for at
+                                    // most 40 cases of a run; astronomically large brace ranges are never retried)
                                     let cfg4 = PoolCfg::new("c01").timeout_ms(12_000);
                                     let again = pool::run(&cfg4, &[json!({"mode": mode, "lines": [c.text]}).to_string().into_bytes()]);
                                     match again.into_iter().next() {
